@@ -222,11 +222,25 @@ def cases(tier, rng):
         for n in (DAYS_N[::2] if quick else DAYS_N):
             yield case_line('z.days', z, 1, n)
             yield case_line('z.days', z, -1, n)
+            yield case_line('z.opdays', z, 1, n)
+            yield case_line('z.opdays', z, -1, n)
         for n in (MONTHS_N[::2] if quick else MONTHS_N):
             yield case_line('z.months', z, 1, n)
             yield case_line('z.months', z, -1, n)
             yield case_line('z.opmonths', z, 1, n)
             yield case_line('z.opmonths', z, -1, n)
+    # ---- operator / checked day stepping on leap-second wall clocks (fraction >= 10^9) and at both range
+    #      ends seen through non-zero offsets, small counts and one year
+    for t in ends[::2] + mids[:12]:
+        for f in (1000000000, 1500000000, 1999999999, 500000000):
+            for off in (3600, -3600, 7200, -7200, 86399, -86399, 19800, 0):
+                z = zval(t, f, off)
+                for n in (0, 1, 2, 365, 366):
+                    yield case_line('z.opdays', z, 1, n)
+                    yield case_line('z.opdays', z, -1, n)
+                    if n in (0, 1, 366):
+                        yield case_line('z.days', z, 1, n)
+                        yield case_line('z.days', z, -1, n)
     # ---- eq / cmp / hash: pairs with equal and neighbouring instants under different offsets
     pool = []
     for t in ends[:12] + mids[:18]:
@@ -288,7 +302,7 @@ def cases(tier, rng):
             yield case_line('z.withtime', z, [rng.randint(0, DAY - 1), rand_frac(rng)])
         elif r < 0.8:
             n_ = rng.choice([rng.randint(0, 40), rng.randint(0, 800), rng.randint(0, 200000000), rng.choice(DAYS_N)])
-            yield case_line('z.days', z, rng.choice([1, -1]), n_)
+            yield case_line(rng.choice(['z.days', 'z.opdays']), z, rng.choice([1, -1]), n_)
         elif r < 0.9:
             n_ = rng.choice([rng.randint(0, 40), rng.randint(0, 5000), rng.randint(0, 6300000), rng.choice(MONTHS_N)])
             yield case_line(rng.choice(['z.months', 'z.opmonths']), z, rng.choice([1, -1]), n_)
